@@ -4,7 +4,13 @@ R1  sum over sources (T-AGREE), decided by following sum_total_emissions and com
     partial evaluator over the AST: known values - strings, tuples, dict displays, records of repository NamedTuple /
     dataclass classes with their methods and properties, module-level dispatch tables, lambdas, private helpers - are
     computed, everything else is a symbol denoting its canonical expression; every test on a symbol is enumerated with
-    both outcomes, one value per test text and path; `for species in Species` is run for a generic member).  On every
+    both outcomes, one value per test text and path; `for species in Species` is run for a generic member; a loop over
+    a source map itself - `for k in apu` / `.keys()` / `for k, v in apu.items()`, the map's declared type saying that
+    its keys are Species members - is the loop over Species restricted to `k in apu`, and successive loops share the one
+    generic member, so a total built in two passes (flight sources for every species, then each ground source over its
+    own keys, under guard clauses or not) is judged like the single loop; a local that a finished loop leaves behind is
+    not the generic member's in a later loop; an ordinary helper class of the package is instantiated by running its
+    __init__, its methods / properties are followed, a class-level value is one object shared by all reads).  On every
     path of sum_total_emissions the total stored for the generic species is a sum in which each source parameter's
     `<source>[species]` occurs exactly once, reduced the way that source's declared value shape demands (array:
     np.sum / sum / .sum(); per-mode values: .sum() or a sum over .values() / .as_array(); scalar: itself; float()
@@ -45,6 +51,9 @@ R3  amount = EI × component fuel (T-PAIR + def-use): per producer, the index
     comprehension passed to `.update` / the constructor.  The returned
     fuel_burn derives from the same F (sum / slice-sum), and zeroing stores
     into elements of the two maps come as index/emission twins over one slice
+    (or the index element is zeroed, unconditionally, before the statement of
+    the same iteration that evaluates the product for that key: the amount is
+    then masked by its factor)
     value - however the element is reached (`m[k][a:b]`, the value variable of
     an .items()/.values() loop, a local, the variable of a loop over a literal
     collection of such elements or of the two maps, itertools.chain of their
@@ -111,7 +120,8 @@ R7  caller-held data are not written (ownership by abstract interpretation):
     package are entered with the caller's values (private helpers are judged
     with what their callers hand them); a repository `copy` method is read
     before it is believed (one that returns the receiver itself on some path
-    copies nothing there).  Objects of unknown origin (results of library
+    copies nothing there); attributes are separate slots: what is stored into
+    `x.a` is not what `x.b` holds.  Objects of unknown origin (results of library
     calls, of methods other than copy) are never reported; copy.copy() of a
     repository object, nested functions and aliases of a container under a
     second name are not modelled.
@@ -364,8 +374,11 @@ class _Path:
 
 
 class _PE:
-    def __init__(self, prog, opaque=(), prime=False, scope='/emissions/'):
+    def __init__(self, prog, opaque=(), prime=False, scope='/emissions/', keyed=None):
         self.prog, self.opaque, self.prime, self.scope = prog, set(opaque), prime, scope
+        # canonical text of a mapping -> text of the enum its keys are members of (from its declared type): a loop over
+        # such a mapping is the loop over the enum restricted to the keys the mapping has
+        self.keyed = dict(keyed or {})
 
     def explore(self, fi, limit=5000):
         todo, out = [[]], []
@@ -386,7 +399,7 @@ class _Run:
         self.pe, self.prog, self.prefix = pe, pe.prog, prefix
         self.taken, self.known = [], {}
         self.muts, self.loops, self.labels, self.calls = [], [], {}, []
-        self.depth, self.nofork, self.consts = 0, False, {}
+        self.depth, self.nofork, self.consts, self.clsattrs = 0, False, {}, {}
 
     # ----- driver
     def start(self, fi):
@@ -729,11 +742,13 @@ class _Run:
                 if any(d.split('.')[-1] in ('property', 'cached_property') for d in meth.decorators()):
                     return self.enter(meth.node, meth.module, [v], {}, None)
                 return _Fn('repo', fi=meth, recv=v)
-            ca = {}
-            for c in reversed(v.cls.mro()):
-                ca.update(c.class_assignments())
-            if attr in ca and ca[attr] is not None:
-                return self.eval(ca[attr], _PEFrame(v.cls.module, {}))
+            for c in v.cls.mro():
+                ca = c.class_assignments()
+                if ca.get(attr) is not None:
+                    # a class-level value is one object, shared by every instance (and by every read)
+                    if (id(c.node), attr) not in self.clsattrs:
+                        self.clsattrs[(id(c.node), attr)] = self.eval(ca[attr], _PEFrame(c.module, {}))
+                    return self.clsattrs[(id(c.node), attr)]
             if default is not _Undecidable:
                 return default
             raise _Undecidable(f'record {v.cls.name} has no attribute {attr}')
@@ -893,6 +908,25 @@ class _Run:
     def construct(self, fv, pos, kw, node):
         ci = fv.cls
         if not self.record_class(ci):
+            # an ordinary class of the package whose constructor can be followed: an object whose attributes are what
+            # __init__ (run here, with the caller's values) stores on it; its methods and properties are then followed
+            # like a record's.  Anything else (bases outside the repository, __new__, a metaclass, a constructor that
+            # cannot be followed) stays a symbol.
+            init = ci.find_method('__init__')
+            plain = init is not None and self.pe.scope in ci.module.relpath and self.depth < 8 \
+                and not any(c.find_method(x) for c in [ci] for x in ('__new__', '__post_init__', '__setattr__', '__getattr__', '__getattribute__')) \
+                and all(len(c.bases) == len([b for b in c.base_exprs if b != 'object']) for c in ci.mro()) \
+                and not ci.node.keywords and not ci.node.decorator_list and not init.node.decorator_list
+            if plain:
+                obj = _Rec(ci, {})
+                obj.node = node
+                saved = (len(self.taken), dict(self.known), len(self.muts), len(self.calls), len(self.loops))
+                try:
+                    self.enter(init.node, init.module, [obj] + list(pos), kw, None)
+                    return obj
+                except _Undecidable:
+                    del self.taken[saved[0]:], self.muts[saved[2]:], self.calls[saved[3]:], self.loops[saved[4]:]
+                    self.known = saved[1]
             return self.opaque(fv, pos, kw, node)
         order, defaults = [], {}
         for c in reversed(ci.mro()):
@@ -1186,27 +1220,54 @@ class _Run:
             raise _Undecidable('augmented assignment target')
 
     def generic_bind(self, target, it, fr, node, prime=False):
-        """bind the target of a loop over the symbol `it` to a generic element; records the loop"""
+        """bind the target of a loop over the symbol `it` to a generic element; records the loop.  A loop over a mapping
+        whose declared key type is an enum E (`for k in m` / `m.keys()` / `for k, v in m.items()`) is the loop over E
+        restricted to the members m has: it is recorded as a loop over E with `member` = m (the caller decides
+        `k in m` before it runs the body).  Successive loops over one E share one generic element (whatever the loop
+        variables are called): what they store under it is what the generic member ends up with."""
         if not isinstance(it, _Sym):
             raise _Undecidable('iteration over a symbolic sum')
         how, base = 'elements', it
         if isinstance(it.e, ast.Call) and isinstance(it.e.func, ast.Attribute) and not it.e.args and not it.e.keywords \
                 and it.e.func.attr in ('items', 'keys', 'values'):
             how, base = it.e.func.attr, _Sym(it.e.func.value)
-        elif isinstance(it.e, ast.Call) and call_name(it.e) in ('list', 'tuple', 'iter') and len(it.e.args) == 1 and not it.e.keywords:
+        elif isinstance(it.e, ast.Call) and call_name(it.e) in ('list', 'tuple', 'iter', 'sorted') and len(it.e.args) == 1 and not it.e.keywords:
             base = _Sym(it.e.args[0])
         pre = 'other_' if prime else ''
+        over, member = base.text, None
+        if base.text in self.pe.keyed and how in ('elements', 'keys', 'items'):
+            over, member = self.pe.keyed[base.text], base.text
+        shared = next((l_['key'] for l_ in self.loops if l_['over'] == over and l_['prime'] == prime and over in self.pe.keyed.values()), None)
+
+        def keysym(name):
+            return _Sym(ast.Name(shared if shared is not None else pre + name, ast.Load()))
         if how == 'items' and isinstance(target, (ast.Tuple, ast.List)) and len(target.elts) == 2 and isinstance(target.elts[0], ast.Name):
-            key = _Sym(ast.Name(pre + target.elts[0].id, ast.Load()))
+            key = keysym(target.elts[0].id)
             fr.env[target.elts[0].id] = key
             self.bind(target.elts[1], _Sym(ast.Subscript(base.e, key.e, ast.Load())), fr, node)
         elif how in ('elements', 'keys') and isinstance(target, ast.Name):
-            key = _Sym(ast.Name(pre + target.id, ast.Load()))
+            key = keysym(target.id)
             fr.env[target.id] = key
         else:
             raise _Undecidable('the target of a loop over a symbol')
-        self.loops.append({'over': base.text, 'how': how, 'key': key.text, 'node': node, 'prime': prime})
+        self.loops.append({'over': over, 'how': how, 'key': key.text, 'node': node, 'prime': prime, 'member': member})
         return key
+
+    def forget_iteration(self, s, fr, key):
+        """after a loop over a symbol: a local the body bound to something of the generic element holds, from here on,
+        what the *last* iteration left - which is not the generic element of a later loop"""
+        bound = {x.id for b in s.body for x in ast.walk(b) if isinstance(x, ast.Name) and isinstance(x.ctx, ast.Store)}
+        bound |= {x.id for x in ast.walk(s.target) if isinstance(x, ast.Name)}
+        for n in bound:
+            f = fr.find(n)
+            if f is None or not isinstance(f.env[n], (_Sym, _Lin)):
+                continue
+            try:
+                e = _pe_ast(f.env[n])
+            except _Undecidable:
+                continue
+            if any(isinstance(x, ast.Name) and x.id == key.text for x in ast.walk(e)):
+                f.env[n] = _Sym(ast.Name(f'{n}_left_by_the_last_iteration', ast.Load()))
 
     def s_For(self, s, fr):
         it = self.iterable(self.eval(s.iter, fr))
@@ -1214,12 +1275,15 @@ class _Run:
             if s.orelse:
                 raise _Undecidable('for/else over a symbol')
             rounds = [True, False] if self.pe.prime else [False]
+            keys = []
             for prime in rounds:
-                self.generic_bind(s.target, it, fr, s, prime)
+                key = self.generic_bind(s.target, it, fr, s, prime)
+                member = self.loops[-1]['member']
                 old = self.nofork
                 self.nofork = old or (self.pe.prime and not prime)
                 try:
-                    self.block(s.body, fr)
+                    if member is None or self.truth(_Sym(ast.Compare(key.e, [ast.In()], [ast.parse(member, mode='eval').body]))):
+                        self.block(s.body, fr)
                 except _Cont:
                     pass
                 except _Brk:
@@ -1228,6 +1292,9 @@ class _Run:
                     raise _Undecidable('return out of a loop over a symbol')
                 finally:
                     self.nofork = old
+                keys.append(key)
+            for key in keys if self.pe.keyed else ():
+                self.forget_iteration(s, fr, key)
             return
         broke = False
         for item in self.sequence(it):
@@ -1499,16 +1566,55 @@ def _reduction(e, base):
     return None
 
 
+def _key_enum(prog, module, ann):
+    """name of the repository enum whose members are the keys of a mapping declared as `ann`: `dict[E, …]` /
+    `Mapping[E, …]`, or a repository mapping class (`SpeciesValues[float]`) whose own __getitem__ / __setitem__ /
+    __contains__ declares its key as an E.  None when the declaration does not say."""
+    def enum_name(e):
+        if not isinstance(e, ast.Name):
+            return None
+        ci = prog.resolve_name(module, e.id)
+        return e.id if hasattr(ci, 'mro') and any('Enum' in b for c in ci.mro() for b in c.base_exprs) else None
+
+    if isinstance(ann, ast.Constant) and isinstance(ann.value, str):
+        try:
+            ann = ast.parse(ann.value, mode='eval').body
+        except SyntaxError:
+            return None
+    if not isinstance(ann, ast.Subscript):
+        return None
+    head = ann.value
+    if norm(head).split('.')[-1] in ('dict', 'Dict', 'Mapping', 'MutableMapping', 'OrderedDict', 'defaultdict'):
+        return enum_name(ann.slice.elts[0]) if isinstance(ann.slice, ast.Tuple) and ann.slice.elts else None
+    ci = prog.resolve_name(module, head.id) if isinstance(head, ast.Name) else None
+    if not hasattr(ci, 'find_method'):
+        return None
+    found = set()
+    for mname in ('__getitem__', '__setitem__', '__contains__'):
+        meth = ci.find_method(mname)
+        args = meth.node.args.args if meth is not None else []
+        if len(args) >= 2 and args[1].annotation is not None:
+            ci2 = prog.resolve_name(meth.module, norm(args[1].annotation))
+            if hasattr(ci2, 'mro') and any('Enum' in b for c in ci2.mro() for b in c.base_exprs):
+                found.add(ci2.name)
+    return found.pop() if len(found) == 1 else None
+
+
 def _rule_sum_function(ctx, st, cfg):
     import re
     params = st.params
     shape_of = {}
+    keyed = {}
+    for arg in st.node.args.posonlyargs + st.node.args.args + st.node.args.kwonlyargs:
+        en = _key_enum(ctx.prog, st.module, arg.annotation) if arg.annotation is not None else None
+        if en is not None:
+            keyed[arg.arg] = en
     for arg in st.node.args.posonlyargs + st.node.args.args + st.node.args.kwonlyargs:
         an = norm(arg.annotation) if arg.annotation is not None else ''
         shape_of[arg.arg] = 'array' if 'ndarray' in an else 'modes' if 'ThrustModeValues' in an else 'scalar' if 'float' in an else None
     fallback = {'trajectory': 'array', 'lto': 'modes', 'apu': 'scalar', 'gse': 'scalar'}
     allowed = {'array': {'sum', 'method-sum'}, 'modes': {'method-sum', 'sum-of-values'}, 'scalar': {'itself'}}
-    paths = _explore(ctx, 'C01-R1', st, opaque=())
+    paths = _explore(ctx, 'C01-R1', st, opaque=(), keyed=keyed)
     if not paths:
         ctx.undecided('C01-R1', st, 'sum_total_emissions', 'no path returns')
     viol = {}            # (construct, kind) -> (score, why, line)
@@ -1628,7 +1734,7 @@ def _rule_sum_function(ctx, st, cfg):
                    f'on {len(paths)} paths: added exactly once, reduced as its shape demands, exactly when the species is a key of `{p}`'
                    + (f' (and {sw} - the switch under which it is computed - is on)' if sw else ''))
     # the accumulator is per species: a second generic iteration must not see anything of the first
-    for path in _explore(ctx, 'C01-R1', st, opaque=(), prime=True):
+    for path in _explore(ctx, 'C01-R1', st, opaque=(), prime=True, keyed=keyed):
         res = path.outcome[1]
         try:
             state = _final_entries(path, res) if isinstance(res, _Sym) else {}
@@ -2012,6 +2118,34 @@ def _producer(ctx, fi, emis, idx, fuel_var, ret_fuel_ok):
     return mult, others
 
 
+def _zeroed_before_product(fn, s, els, mult, emis, idx):
+    """the store `s` zeroes a window of the index map's element at the key of the running iteration (every element it
+    may denote, `els`, is `idx[k]`), unconditionally, and the amount of that same key is formed afterwards in the same
+    iteration as a product with that element (one of the verified amount sites `mult`; what counts is where the
+    product is *evaluated*, not where it is stored): the amount is then masked over the same window by its factor - no
+    store of its own is needed."""
+    for key, val, at, st in _amount_sites(fn, emis):
+        if st not in mult or not isinstance(key, ast.Name) or not els or any(e_ != (idx, key.id) for e_ in els):
+            continue
+        owner = next((o for o, tg, itx in enclosing_iterations(at) for mi in [map_iteration(tg, itx)] if mi and mi[1] == key.id), None)
+        # the statement that evaluates the product (the store itself, or the definition of the local that is stored)
+        e, ev = val, st
+        while isinstance(e, ast.Name) and single_def_value(fn, e.id) is not None:
+            e, ev = single_def_value(fn, e.id), local_defs(fn, e.id)[0]
+        if isinstance(e, ast.Name) or not isinstance(owner, ast.For) or not is_within(s, owner) or not is_within(ev, owner) \
+                or s.lineno >= ev.lineno:
+            continue
+        if guards_of(s, stop=owner) or guards_of(at, stop=owner) or guards_of(ev, stop=owner):
+            continue
+        inner = [o for o, _tg, _it in enclosing_iterations(s) if o is not owner and is_within(o, owner)]
+        if any(_loop_items(fn, o.iter) is None for o in inner if isinstance(o, ast.For)) or any(not isinstance(o, ast.For) for o in inner):
+            continue                    # a loop around the store other than one over a literal collection may run zero times
+        if any(isinstance(x, (ast.Continue, ast.Break)) and x.lineno < st.lineno for x in walk_no_nested(owner)):
+            continue
+        return True
+    return False
+
+
 def _subset_fields(prog, fi):
     """field -> expression of the EmissionsSubset the producer returns (positional arguments mapped through the
     dataclass's own field order); None when the function does not end in one such return"""
@@ -2133,6 +2267,10 @@ def rule_amounts(ctx):
             which = {'indices' if m_ == t_idx else 'emissions' for m_, _k in (els or []) if m_ in (t_idx, t_em)}
             if not which:
                 continue
+            if which == {'indices'} and s.value.value == 0.0 and _zeroed_before_product(tf.node, s, els, mult, t_em, t_idx):
+                # the index element is masked before the amount of the same key is formed from it: the product is zero
+                # over the window because its factor is
+                which = {'indices', 'emissions'}
             if s.value.value != 0.0:
                 ctx.ob('C01-R3', tf, norm(s), False, 'window masking writes a non-zero constant', line=s.lineno)
             sls = _slice_alternatives(tf.node, t.slice, s, whole)
@@ -3130,8 +3268,10 @@ def _av_read(av, suffix, field=None):
         d = dict(av.fields)
         if field in d:
             return d[field]
+    # an attribute that is not among the known ones is another slot of the object: it holds nothing of what was stored
+    # into the attributes that are known (elements - `x[k]`, iteration - can be any of them)
     parts = [av.held] if av.held is not None else []
-    if field is not None and av.fields:
+    if field is None and av.fields:
         parts += [v for _k, v in av.fields]
     own = set()
     for t in av.own:
@@ -3707,8 +3847,8 @@ class _Frame:
             self.eng.note_store(self.fi, t, base, norm(stmt))
         btxt = norm(self._view_root(base_e))
         if av is not None:
-            if isinstance(t, ast.Attribute) and base.fields is not None:
-                new = _AV(base.own, base.held, dict(base.fields) | {t.attr: av})
+            if isinstance(t, ast.Attribute):
+                new = _AV(base.own, base.held, dict(base.fields or ()) | {t.attr: av})
             elif isinstance(t, ast.Subscript) and _basic_slice(t.slice):
                 new = base
             else:
